@@ -58,3 +58,9 @@ VARIANTS += [
       rule='C17-APPLICABLE', key='argv=verify -7 - c.tdda'),
     M('C17', 'refactor-applicable-with-any', E(PE, "            if a == '-':\n                return True", "            if a in ('-',):\n                return True"), kind='refactor'),
 ]
+
+VARIANTS += [
+    M('C17', 'default-constraints-path-replaces-every-extension', E(PV, "        constraints_path = stem + '.tdda'", "        constraints_path = df_path.replace(ext, '.tdda') if ext else df_path + '.tdda'"),
+      rule='C17-DEFAULTTDDA', key='export.csv/part-1.csv'),
+    M('C17', 'row-numbers-as-a-series', E(PC, "                            pd.RangeIndex(1, len(df_to_save)+1))", "                            pd.Series(range(1, len(df_to_save)+1)))"), rule='C17-ALIGNED', key='pd.Series'),
+]
